@@ -16,6 +16,8 @@ import c2coq
 # module -> (C file, functions)
 LEAF = [
     ("delta", "varintDelta.c", ["varintDeltaZigZag", "varintDeltaZigZagDecode"]),
+    ("group", "varintGroup.c", ["varintGroupBitmapSize_", "varintGroupWidthDecode_", "varintGroupWidthEncode_",
+                                "varintGroupGetFieldWidth", "varintGroupGetSize"]),
 ]
 
 
